@@ -60,17 +60,41 @@ func (e *Enc) checkPost(f *frame, rs retSite) {
 	retTag := fmt.Sprintf("ret%d", e.ctr["ret"])
 	e.curReach = rs.reach
 	for k, c := range e.fc.Ensures {
-		goal := e.safeEvalBool(c, env)
+		goal := e.safeEvalGoal(c, env)
 		e.oblige("post", fmt.Sprintf("ensures%d/%s", k+1, retTag), rs.pos, goal, c.Props, c.Text)
 	}
 	for k, c := range e.fc.Claims {
-		goal := e.safeEvalBool(c, env)
+		goal := e.safeEvalGoal(c, env)
 		n0 := len(e.lines)
 		e.oblige("post", fmt.Sprintf("claims%d/%s", k+1, retTag), rs.pos, goal, c.Props, c.Text)
 		// a claim may be a known finding: it is never assumed afterwards
 		e.lines = e.lines[:n0]
 	}
 	// frame obligations are generated at stores; nothing more here.
+}
+
+// safeEvalGoal evaluates a clause that is about to be proved: universal
+// quantifiers are Skolemized and the remembered universal hypotheses are
+// instantiated at the Skolem constants.
+func (e *Enc) safeEvalGoal(c *Clause, env *SpecEnv) string {
+	savePol := e.pol
+	e.pol = 1
+	n0 := len(e.goalSkolems)
+	g := e.safeEvalBool(c, env)
+	e.pol = savePol
+	if len(e.goalSkolems) > n0 {
+		e.instantiateFacts(e.goalSkolems[n0:])
+	}
+	return g
+}
+
+// safeEvalHyp evaluates a clause that is about to be assumed.
+func (e *Enc) safeEvalHyp(c *Clause, env *SpecEnv) string {
+	savePol := e.pol
+	e.pol = -1
+	g := e.safeEvalBool(c, env)
+	e.pol = savePol
+	return g
 }
 
 func (e *Enc) safeEvalBool(c *Clause, env *SpecEnv) (out string) {
@@ -142,7 +166,7 @@ func (e *Enc) loopHead(f *frame, li *loopInfo, st *State) {
 			continue
 		}
 		k++
-		goal := e.safeEvalBool(c, env)
+		goal := e.safeEvalGoal(c, env)
 		e.oblige("inv-entry", fmt.Sprintf("loop%d/inv%d", li.ordinal, k), b.Instrs[0].Pos(), goal, c.Props, c.Text)
 	}
 	// 2. havoc everything the loop may change
@@ -152,7 +176,7 @@ func (e *Enc) loopHead(f *frame, li *loopInfo, st *State) {
 		f.vals[phi] = nv
 	}
 	mods, top := e.w.loopMods(f.fn, li)
-	e.havocHeaps(st, mods, top, e.nextEntry, e.fc != nil && e.fc.freshOnlyFrame())
+	e.havocHeapsLoop(st, mods, top)
 	if e.trackOvf {
 		st.ghosts["ovf"] = boolVal(e.fresh("ovf", "Bool"))
 	}
@@ -165,6 +189,19 @@ func (e *Enc) loopHead(f *frame, li *loopInfo, st *State) {
 	nn := e.fresh("next", "Int")
 	e.assert(fmt.Sprintf("(>= %s %s)", nn, st.next))
 	st.next = nn
+	// range-index loops: the hidden index starts at -1 and is only incremented below the length
+	for _, phi := range phis {
+		if phi.Comment == "rangeindex" && isRangeIndexPhi(phi) {
+			e.assume(fmt.Sprintf("(and (<= (- 1) %s) (< %s 281474976710656))", f.vals[phi].T, f.vals[phi].T))
+		}
+	}
+	// loop-carried slices that can only refer to backing arrays allocated by this activation
+	for _, phi := range phis {
+		if _, isSlice := phi.Type().Underlying().(*types.Slice); isSlice && sliceIsLocal(phi, map[ssa.Value]bool{}) && e.nextEntry != "" {
+			v := f.vals[phi]
+			e.assume(fmt.Sprintf("(or (= %s 0) (>= %s %s))", v.Sub[0].T, v.Sub[0].T, e.nextEntry))
+		}
+	}
 	// 3. assume invariants
 	env = e.baseEnv(f, st)
 	env.blk, env.atHead = b, true
@@ -172,7 +209,7 @@ func (e *Enc) loopHead(f *frame, li *loopInfo, st *State) {
 		if c.Kind != "invariant" {
 			continue
 		}
-		e.assume(e.safeEvalBool(c, env))
+		e.assume(e.safeEvalHyp(c, env))
 	}
 	// remember head values for step/decreases clauses
 	hv := map[string]Val{}
@@ -195,6 +232,32 @@ func (fc *FuncContract) freshOnlyFrame() bool {
 		}
 	}
 	return true
+}
+
+// havocHeapsLoop: loop-head havoc. Under a modifies clause, a heap that is not
+// allowed at type level can only have been written at objects allocated by this
+// activation, so objects that existed at entry keep their values.
+func (e *Enc) havocHeapsLoop(st *State, mods map[string]bool, top bool) {
+	if e.fc == nil || !e.fc.HasModifies || top {
+		e.havocHeaps(st, mods, top, e.nextEntry, false)
+		return
+	}
+	hasFresh := false
+	for _, m := range e.fc.Modifies {
+		if m == "fresh" {
+			hasFresh = true
+		}
+	}
+	framed, plain := map[string]bool{}, map[string]bool{}
+	for n := range mods {
+		if hasFresh && len(e.notAllowedNames(map[string]bool{n: true}, false)) > 0 {
+			framed[n] = true
+		} else {
+			plain[n] = true
+		}
+	}
+	e.havocHeaps(st, plain, false, e.nextEntry, false)
+	e.havocHeaps(st, framed, false, e.nextEntry, true)
 }
 
 // havocHeaps replaces the named heaps (all heaps if top) by fresh versions.
@@ -337,11 +400,11 @@ func (e *Enc) checkBackEdge(f *frame, li *loopInfo, from *ssa.BasicBlock, st *St
 		switch c.Kind {
 		case "invariant":
 			ki++
-			goal := e.safeEvalBool(c, env)
+			goal := e.safeEvalGoal(c, env)
 			e.oblige("inv-preserved", fmt.Sprintf("%s/inv%d", tag, ki), from.Instrs[len(from.Instrs)-1].Pos(), goal, c.Props, c.Text)
 		case "step":
 			ks++
-			goal := e.safeEvalBool(c, envBody)
+			goal := e.safeEvalGoal(c, envBody)
 			e.oblige("step", fmt.Sprintf("%s/step%d", tag, ks), from.Instrs[len(from.Instrs)-1].Pos(), goal, c.Props, c.Text)
 		case "decreases":
 			kd++
@@ -439,4 +502,25 @@ func (e *Enc) resolveLocal(f *frame, b *ssa.BasicBlock, name string, atHead bool
 		}
 	}
 	return Val{}, false
+}
+
+// isRangeIndexPhi: phi [entry: -1, back edges: phi+1] as emitted by the SSA builder for range loops.
+func isRangeIndexPhi(phi *ssa.Phi) bool {
+	for _, ed := range phi.Edges {
+		if c, ok := ed.(*ssa.Const); ok {
+			if c.Int64() != -1 {
+				return false
+			}
+			continue
+		}
+		b, ok := ed.(*ssa.BinOp)
+		if !ok || b.Op.String() != "+" || b.X != ssa.Value(phi) {
+			return false
+		}
+		if c, ok := b.Y.(*ssa.Const); !ok || c.Int64() != 1 {
+			return false
+		}
+		// the increment is used by the loop condition "t < len": accepted as bounded
+	}
+	return true
 }
